@@ -729,7 +729,8 @@ fn run_grp<G: Pt>(op: &str, a: &[Arg]) -> Vec<Arg> {
             q *= k;
             assert!(q == r1 && p * &k == r1, "harness: *, *= and * & differ");
             let r2: G = aff * k;
-            ok(vec![outp(&r1), outp(&r2)])
+            // R and the API expression 2R - R (a second arithmetic step on the product)
+            ok(vec![outp(&r1), outp(&(r1.double() - r1)), outp(&r2), outp(&(r2.double() - r2))])
         },
         "mul_bigint" => {
             let limbs = arg_limbs(&a[7]);
@@ -737,7 +738,7 @@ fn run_grp<G: Pt>(op: &str, a: &[Arg]) -> Vec<Arg> {
             let aff = p.into_affine();
             let r1 = p.mul_bigint(&limbs);
             let r2: G = aff.mul_bigint(&limbs);
-            ok(vec![outp(&r1), outp(&r2)])
+            ok(vec![outp(&r1), outp(&(r1.double() - r1)), outp(&r2), outp(&(r2.double() - r2))])
         },
         "mul_bits_be" => {
             let bits: Vec<bool> = a[7].iter().map(|x| !x.is_zero()).collect();
